@@ -96,12 +96,25 @@ func init() {
 	}
 }
 
+// safely runs one workload invocation; a panic becomes its result ("panic:<message>"), so that a panic
+// the sequential run shows as well (a single-goroutine defect, not C20's business) compares equal, and
+// a panic only the concurrent run shows is reported as such.
+func safely(w workload, seed uint64) (digest string) {
+	defer func() {
+		if r := recover(); r != nil {
+			digest = "panic:" + strings.ReplaceAll(fmt.Sprint(r), "\n", " ")
+		}
+	}()
+	return w(seed).digest()
+}
+
 func main() {
 	name := flag.String("w", "", "workload name (or `list`)")
 	procs := flag.Int("procs", 2, "GOMAXPROCS")
 	seed := flag.Uint64("seed", 1, "seed")
 	iters := flag.Int("iters", 4, "iterations per goroutine")
 	k := flag.Int("k", 2, "number of goroutines")
+	dump := flag.Bool("dump", false, "print the result lines of goroutine 0's first iteration and exit (for reading a replay)")
 	flag.Parse()
 
 	if *name == "list" {
@@ -126,6 +139,15 @@ func main() {
 		fmt.Fprintln(os.Stderr, "unknown workload", *name)
 		os.Exit(2)
 	}
+	if *dump {
+		for _, l := range pick(0)(*seed*1000003 + 1).lines {
+			if len(l) > 300 {
+				l = l[:300] + "…"
+			}
+			fmt.Println(l)
+		}
+		return
+	}
 	// goroutine g, iteration i works on inputs derived from (seed, g, i): sizes and names vary between
 	// iterations, so caches that are filled on first use keep being written during the run
 	privSeed := func(g, i int) uint64 { return *seed*1000003 + uint64(g)*7919 + uint64(i)*104729 + 1 }
@@ -141,19 +163,13 @@ func main() {
 		got[g] = make([]string, *iters)
 		go func(g int) {
 			defer wg.Done()
-			defer func() {
-				if r := recover(); r != nil {
-					msg := strings.ReplaceAll(fmt.Sprint(r), "\n", " ")
-					verdict[g] = "panic " + msg
-				}
-			}()
 			<-start
 			for j := 0; j < g; j++ { // staggered starts
 				runtime.Gosched()
 			}
 			w := pick(g)
 			for i := 0; i < *iters; i++ {
-				got[g][i] = w(privSeed(g, i)).digest()
+				got[g][i] = safely(w, privSeed(g, i))
 				runtime.Gosched()
 			}
 			verdict[g] = "same"
@@ -166,15 +182,19 @@ func main() {
 	// the main goroutine), twice — it must be a function of the seed only, else "same results" means nothing
 	for g := 0; g < *k; g++ {
 		for i := 0; i < *iters; i++ {
-			want := pick(g)(privSeed(g, i)).digest()
+			want := safely(pick(g), privSeed(g, i))
 			if i == 0 {
 				fmt.Printf("seq %d %s\n", g, want)
-				if again := pick(g)(privSeed(g, i)).digest(); again != want {
+				if again := safely(pick(g), privSeed(g, i)); again != want {
 					fmt.Printf("nondeterministic %d %s %s\n", g, want, again)
 				}
 			}
 			if verdict[g] == "same" && got[g][i] != want {
-				verdict[g] = fmt.Sprintf("differ iter=%d", i)
+				if strings.HasPrefix(got[g][i], "panic:") {
+					verdict[g] = fmt.Sprintf("panic iter=%d %s", i, got[g][i])
+				} else {
+					verdict[g] = fmt.Sprintf("differ iter=%d", i)
+				}
 			}
 		}
 	}
